@@ -171,3 +171,38 @@ func init() {
 		g.Trace = append(g.Trace, "abi.NFTPayload."+name)
 	}
 }
+
+// AddrSweep returns message addresses covering every bit length 0..511 of the
+// variable-length and external kinds (the random generator hits a given
+// length only now and then), with workchains inside and outside the int8
+// range and with/without anycast.
+func AddrSweep(r interface{ Bits(int) []bool; Uint64() uint64 }) []tlb.MsgAddress {
+	mk := func(n int) boc.BitString {
+		bs := boc.NewBitString(n)
+		for _, b := range r.Bits(n) {
+			bs.WriteBit(b)
+		}
+		return bs
+	}
+	var out []tlb.MsgAddress
+	for n := 0; n <= 511; n++ {
+		ext := mk(n)
+		out = append(out, tlb.MsgAddress{SumType: "AddrExtern", AddrExtern: &ext})
+		for k, wc := range []int32{int32(int8(r.Uint64())), 128 + int32(r.Uint64()%1000000), -129 - int32(r.Uint64()%1000000)} {
+			var a tlb.MsgAddress
+			a.SumType = "AddrVar"
+			a.AddrVar = &struct {
+				Anycast     tlb.Maybe[tlb.Anycast]
+				AddrLen     tlb.Uint9
+				WorkchainId int32
+				Address     boc.BitString
+			}{AddrLen: tlb.Uint9(n), WorkchainId: wc, Address: mk(n)}
+			if (n+k)%3 == 0 {
+				d := uint32(1 + r.Uint64()%30)
+				a.AddrVar.Anycast = tlb.Maybe[tlb.Anycast]{Exists: true, Value: tlb.Anycast{Depth: d, RewritePfx: uint32(r.Uint64() & (uint64(1)<<d - 1))}}
+			}
+			out = append(out, a)
+		}
+	}
+	return out
+}
